@@ -19,15 +19,19 @@ import (
 func init() { Extractors["C06"] = c06Facts }
 
 type c06Summary struct {
-	MergeClauses     map[string]string `json:"merge_clauses"`
-	CloneCopied      []string          `json:"clone_copied"`
-	CloneShared      []string          `json:"clone_shared"`
-	CloneMaps        []string          `json:"clone_fresh_maps"`
-	SelfAppends      []string          `json:"chain_methods_appending_to_statement_slices"`
-	UnresetAppends   []string          `json:"appends_onto_shared_slices_without_fresh_reset"`
-	ReceiverWrites   []string          `json:"chain_methods_writing_the_receiver_statement"`
-	SessionUnguarded []string          `json:"session_statement_writes_not_guarded_by_the_clone"`
-	WhereSwap        string            `json:"where_build_swap"`
+	MergeClauses      map[string]string `json:"merge_clauses"`
+	CloneCopied       []string          `json:"clone_copied"`
+	CloneShared       []string          `json:"clone_shared"`
+	CloneMaps         []string          `json:"clone_fresh_maps"`
+	SelfAppends       []string          `json:"chain_methods_appending_to_statement_slices"`
+	UnresetAppends    []string          `json:"appends_onto_shared_slices_without_fresh_reset"`
+	SourceCloneCopied []string          `json:"source_clone_copied"`
+	SourceWhereSwap   string            `json:"source_where_build_swap"`
+	FromReplaces      bool              `json:"from_merge_replaces"`
+	SessionClones     map[string]bool   `json:"session_option_gives_own_statement"`
+	ReceiverWrites    []string          `json:"chain_methods_writing_the_receiver_statement"`
+	SessionUnguarded  []string          `json:"session_statement_writes_not_guarded_by_the_clone"`
+	WhereSwap         string            `json:"where_build_swap"`
 }
 
 func recvType(fd *ast.FuncDecl) string {
@@ -229,6 +233,22 @@ func c06Facts(repo string, w io.Writer) (interface{}, error) {
 			return true
 		})
 	}
+	// what can be executed is executed: Statement.clone's sharing, the slice-carrying MergeClause
+	// bodies, Where.Build's swap and Session's cloning are probed on the running gorm (c06_probe.go);
+	// the source-derived values above are kept in the JSON summary for information only
+	probe, perr := runC06Probe()
+	if perr != nil {
+		return nil, perr
+	}
+	sum.SourceCloneCopied, sum.SourceWhereSwap = sum.CloneCopied, sum.WhereSwap
+	sum.CloneCopied, sum.CloneShared, sum.CloneMaps = probe.CloneCopied, probe.CloneShared, probe.CloneMaps
+	for k, v := range probe.Merge {
+		sum.MergeClauses[k] = v
+	}
+	sum.WhereSwap = probe.WhereSwap
+	sum.FromReplaces = probe.FromReplaces
+	sum.SessionClones = probe.SessionClones
+
 	// chain methods (functions of chainable_api.go) that append in place onto a slice held by the
 	// statement, directly (x.Statement.F = append(x.Statement.F, ...)) or through one call of an
 	// unexported helper method of Statement / DB declared anywhere in the package; and, for the
@@ -582,5 +602,19 @@ func c06Facts(repo string, w io.Writer) (interface{}, error) {
 	strs("receiver_writes", sum.ReceiverWrites)
 	strs("session_unguarded", sum.SessionUnguarded)
 	fmt.Fprintf(w, "Definition where_build_swap : mclass := %s.\n", sum.WhereSwap)
+	fmt.Fprintf(w, "Definition from_merge_replaces : bool := %v.\n", sum.FromReplaces)
+	var sk []string
+	for k := range sum.SessionClones {
+		sk = append(sk, k)
+	}
+	sort.Strings(sk)
+	fmt.Fprintf(w, "Definition session_clones : list (string * bool) := [")
+	for i, k := range sk {
+		if i > 0 {
+			fmt.Fprintf(w, "; ")
+		}
+		fmt.Fprintf(w, "(\"%s\"%%string, %v)", k, sum.SessionClones[k])
+	}
+	fmt.Fprintf(w, "].\n")
 	return sum, nil
 }
